@@ -185,7 +185,7 @@ def clean_plan(rng: random.Random, n: int, tail: bool, nlines=None) -> list[dict
 
 
 P1_NOISE = ["random", "ascii", "slash_nolf", "ident_noend", "partial_readout", "bang_lines", "highbytes", "ident_bang",
-            "end_nonhex", "near_guard", "over_guard", "slash_long_line"]
+            "end_nonhex", "near_guard", "over_guard", "slash_long_line", "guard_boundary"]
 
 
 def noise_prefix(rng: random.Random, kind: str) -> bytes:
@@ -212,6 +212,11 @@ def noise_prefix(rng: random.Random, kind: str) -> bytes:
         return b"/ABC5id\r\n" + b"0-0:96.1.0(12345678)\r\n" * rng.choice([380, 385, 389])
     if kind == "over_guard":
         return b"/ABC5id\r\n" + b"0-0:96.1.0(12345678)\r\n" * rng.choice([400, 800])
+    if kind == "guard_boundary":
+        # identification + data lines just below the guard; the end line (or the next few octets) carries it across
+        body = b"/ABC5id\r\n" + b"0-0:96.1.0(12345678)\r\n" * 371
+        pad = rng.choice([0, 1, 2, 3, 4] * 3 + list(range(30)))
+        return body + b"1-0:1.8.0(" + b"0" * pad + b"1*kWh)\r\n" + rng.choice([b"!\r\n", b"!ABCD\r\n", b"!" + b"0" * 12 + b"\r\n", b""])
     if kind == "slash_long_line":
         return b"/" + b"x" * rng.choice([8180, 8191, 8192, 9000, 20000])
     return b"x"
@@ -502,3 +507,19 @@ def run_c05(chk: Check) -> int:
 
 def replay_c05(chk, rp):
     return replay_any(chk, rp, ("C05",))
+
+
+def guard_sweep_traces(rng: random.Random) -> list[dict]:
+    """Readouts whose length crosses the 8191-octet guard exactly at / around the end line, followed by clean readouts."""
+    out = []
+    for pad in range(0, 24):
+        body = b"/ABC5id\r\n" + b"0-0:96.1.0(12345678)\r\n" * 371 + b"1-0:1.8.0(" + b"0" * pad + b"1*kWh)\r\n"
+        for end in (b"!\r\n", b"!ABCD\r\n"):
+            plan = [item_noise(body + end)] + [item_readout(rng, tag=j, nlines=1) for j in range(2)]
+            data = plan_wire(plan)
+            nl = len(body + end)
+            rest = len(data) - nl
+            cuts = [[len(data)], [len(body), len(end)] + [rest], [nl] + [37] * (rest // 37) + ([rest % 37] if rest % 37 else []),
+                    [4096] * (len(data) // 4096) + ([len(data) % 4096] if len(data) % 4096 else [])]
+            out.append(make_trace(data, cuts, mode="resync", plan=plan, origin="gen:resync:guard_sweep", nodrift=False))
+    return out
